@@ -168,6 +168,10 @@ class Multiplexer(ComplexDop):
         if mux_case.structure is not None:
             mux_case.structure.encode_into_pdu(physical_value=case_value, encode_state=encode_state)
         else:
+            if case_value is not None and case_value != {}:
+                raise EncodeError(f"Case {mux_case.short_name} of multiplexer {self.short_name} "
+                                  f"does not exhibit a structure, but the content "
+                                  f"{case_value!r} was specified for it")
             encode_state.emplace_bytes(b'')
 
         encode_state.origin_byte_position = orig_origin
